@@ -22,27 +22,39 @@ RG_INIT = dict(params=dict(self='obj:RegionGraph', domain='obj:Domain', cliques=
                ensures={'convex-flag-selects-hazan-peng-shashua': 'implies(convex, same(self.belief_propagation, self.hazan_peng_shashua))',
                         'otherwise-generalised-propagation': 'implies(not convex, same(self.belief_propagation, self.generalized_belief_propagation))',
                         'total-iters-damping-stored-as-given': 'same(self.total, total) and same(self.iters, iters) and same(self.damping, damping) and same(self.convex, convex)'})
-ITEMS = [('src/mbi/local_inference.py', 'LocalInference._setup', LI_SETUP), ('src/mbi/region_graph.py', 'RegionGraph.__init__', RG_INIT)]
+FG_INIT = dict(params=dict(self='obj:FactorGraph', domain='obj:Domain', cliques='seq:obj', total='obj:', convex='bool', iters='obj:'),
+               requires=[], pure={'.get_counting_numbers': 'obj', '.init_messages': 'obj', 'len': 'int'}, domain_iterates_attrs=True,
+               loops={1: dict(invariant=[]), 2: dict(invariant=[])},
+               ensures={'convex-flag-selects-convergent-propagation': 'implies(convex, same(self.belief_propagation, self.convergent_belief_propagation))',
+                        'otherwise-loopy-propagation': 'implies(not convex, same(self.belief_propagation, self.loopy_belief_propagation))',
+                        'total-iters-convexity-stored-as-given': 'same(self.total, total) and same(self.iters, iters) and same(self.convex, convex) and same(self.domain, domain)'})
+ITEMS = [('src/mbi/local_inference.py', 'LocalInference._setup', LI_SETUP), ('src/mbi/region_graph.py', 'RegionGraph.__init__', RG_INIT),
+         ('src/mbi/factor_graph.py', 'FactorGraph.__init__', FG_INIT)]
 
 
 def hooks_for(c):
     return SiteSpecHooks(c.get('sites', []))
 
 
-def frame_report():
+def fg_frame_reports():
+    """FactorGraph.__init__ is verified with its helper methods treated as leaving the attributes its postcondition speaks about alone."""
+    return [frame_report('src/mbi/factor_graph.py', 'FactorGraph.' + m, {'belief_propagation', 'total', 'iters', 'convex', 'domain'})
+            for m in ('get_counting_numbers', 'init_messages')]
+
+
+def frame_report(rel='src/mbi/region_graph.py', q='RegionGraph.build_graph', protected=None):
     """RegionGraph.__init__ is verified with `self.build_graph()` treated as leaving the attributes its postcondition speaks about
     alone; that frame condition is an obligation of its own, decided on build_graph's text: it assigns none of them."""
     import ast, time
     from .. import frontend
     from ..deductive import FunctionReport
     from ..vc.solver import Obligation
-    rel, q = 'src/mbi/region_graph.py', 'RegionGraph.build_graph'
     r = FunctionReport(rel, q + ' [frame: leaves the dispatch attributes alone]')
     t0 = time.time()
     try:
         fn, _, sha = frontend.get_function(rel, q)
         r.sha = sha
-        protected = {'belief_propagation', 'total', 'iters', 'damping', 'convex'}
+        protected = set(protected or {'belief_propagation', 'total', 'iters', 'damping', 'convex'})
         hit = sorted({t.attr for n in ast.walk(fn) if isinstance(n, (ast.Assign, ast.AugAssign, ast.AnnAssign))
                       for t in (n.targets if isinstance(n, ast.Assign) else [n.target]) for t in ast.walk(t)
                       if isinstance(t, ast.Attribute) and isinstance(t.value, ast.Name) and t.value.id == 'self' and t.attr in protected} |
